@@ -70,6 +70,11 @@ pub fn settings_from(f: &[&str]) -> Settings {
     s
 }
 
+/// watchdog of one parse job: 3 s, or `VDYN_TIMEOUT_MS` (used to tell a slow parse from a hang)
+fn parse_timeout_ms() -> u64 {
+    std::env::var("VDYN_TIMEOUT_MS").ok().and_then(|v| v.parse().ok()).unwrap_or(3000)
+}
+
 fn with_watchdog<F: FnOnce() -> String + Send + 'static>(f: F, ms: u64) -> String {
     let (tx, rx) = mpsc::channel();
     let h = std::thread::Builder::new()
@@ -249,7 +254,7 @@ fn main() {
                                 run::run_lr(input, partial, prev)
                             }
                         },
-                        3000,
+                        parse_timeout_ms(),
                     );
                     if r == "timeout" && !run::PREV_DONE.load(std::sync::atomic::Ordering::SeqCst) {
                         // the history parse itself hangs: that is its own input's finding, not this one's
